@@ -387,6 +387,11 @@ func ruleCrcAgree(r *Report) {
 		key := rule + "/" + k
 		mk := CallsIn(fn, Keys("hash/crc64.MakeTable"))
 		nw := CallsIn(fn, Keys("hash/crc64.New"))
+		if len(mk) == 0 && len(nw) == 0 && k != "sstables.checksumValue" && readerChecksumOfValue(fn) != nil {
+			// the writer calls the readers' function: one computation, nothing to disagree
+			r.OK(rule, key, fn.Pos(), "computed by sstables.checksumValue, the function the readers verify with")
+			continue
+		}
 		if len(mk) != 1 || len(nw) != 1 {
 			r.Bad(rule, key, fn.Pos(), "the value checksum is not computed with crc64.New(crc64.MakeTable(const))")
 			continue
@@ -426,7 +431,7 @@ func ruleCrcAgree(r *Report) {
 			continue
 		}
 		key := rule + "/" + k + "/zero-means-absent"
-		okZ := false
+		okZ := k != "sstables.checksumValue" && readerChecksumOfValue(fn) != nil
 		for _, s := range CallsIn(fn, Keys("sstables.nonZeroChecksum")) {
 			a := s.Call().Common().Args
 			if len(a) != 2 {
@@ -613,4 +618,28 @@ func ruleStoredPayloadCovered(r *Report) {
 			r.Bad(rule, key, fn.Pos(), "nothing at the record level covers the payload bytes as stored; a value is only checked through the CRC-64/ISO of its uncompressed bytes in the table index, which two values that differ in few bytes can share: one altered byte of a snappy payload (a copy offset, 1b -> 35 at offset 69 of the demonstration table) makes Get and Scan return a different, plausible value under verify-on-load and verify-on-read; two equal-length values with equal CRC-64 that change places are served crosswise")
 		}
 	}
+}
+
+// readerChecksumOfValue: the result of a call of sstables.checksumValue on the function's value parameter (the writer
+// using the readers' function instead of its own copy of the computation), nil when there is none.
+func readerChecksumOfValue(fn *ssa.Function) ssa.Value {
+	var out ssa.Value
+	for _, s := range CallsIn(fn, Keys("sstables.checksumValue")) {
+		if s.Lifted {
+			continue
+		}
+		c := s.Instr.(*ssa.Call)
+		if len(c.Call.Args) != 1 {
+			continue
+		}
+		if po := paramOrigin(c.Call.Args[0]); po == nil || refName(po) != "value" {
+			continue
+		}
+		for _, rf := range *c.Referrers() {
+			if ex, ok := rf.(*ssa.Extract); ok && ex.Index == 0 {
+				out = ex
+			}
+		}
+	}
+	return out
 }
